@@ -247,10 +247,22 @@ func genericProbes(s *shape) (ps []*probe) {
 	// shorter message cuts them.  The first one has the question of the base
 	// query, so a cut at the length of the base query falls exactly between
 	// the question and the OPT record.
-	for _, pad := range []int{-1, 0, 7, 60, 200, 380} {
+	//
+	// The totals go beyond the initial size of every pooled read buffer (512
+	// bytes for the UDP and TCP/DoT buffers): exactly 512, 513 and on to 4000
+	// bytes, so that a pooled buffer which has to grow again after a short
+	// message is exercised as well.
+	overhead := len(s.baseOPT(1)) + 4
+	pads := []int{-1, 0, 7, 60, 200, 380}
+	for _, total := range []int{512, 513, 700, 1500, 4000} {
+		pads = append(pads, total-overhead)
+	}
+
+	for _, pad := range pads {
 		ps = append(ps, &probe{
 			family: "longer-edns",
-			desc:   fmt.Sprintf("complete base query with OPT (DO set), padding option of %d bytes (-1: no option)", pad),
+			desc: fmt.Sprintf("complete base query with OPT (DO set), padding option of %d bytes (-1: no option), %d bytes in all",
+				pad, max(overhead+pad, overhead-4)),
 			build: single(func(id uint16) []byte {
 				opt := &tbench.OPTSpec{UDPSize: 1232, DO: true}
 				if pad >= 0 {
